@@ -876,6 +876,7 @@ func Check(r *ev.Run, replay string) {
 			break
 		}
 	}
+	sharedHostMap(r)
 	r.Set("sequences", seqs)
 	if os.Getenv("VERIF_C11_TIMING") != "" {
 		fmt.Fprintf(os.Stderr, "c11: independence phase done at %.1fs\n", time.Since(t0).Seconds())
@@ -1101,7 +1102,7 @@ func (u *universe) finish(r *ev.Run, states, trans int64, ncfg, pairs int) {
 	if r.Thorough() {
 		rule += "; every pair of denials inside one module, module+member, deny a + override b for every ordered pair inside one module, every pair of alias names (all with script attempts); every other pair of denials over U (closure only)"
 	}
-	rule += "; per configuration: full GetAttr closure from cfg.Globals() over the attribute alphabet (fixpoint) and every script attempt for the removed names (identifier, in function, import, import-as, from-import, from-import-as, attribute, getattr, back-references through every baseline path that reaches the module) evaluated with risor.Eval; independence: sequences (R, default) and (default, R, default) for every single denial / override / no-defaults R, built sequentially, plus Eval(R) then Eval(default). distinct = (configuration kind, attempt form, outcome class) tuples"
+	rule += "; per configuration: full GetAttr closure from cfg.Globals() over the attribute alphabet (fixpoint) and every script attempt for the removed names (identifier, in function, import, import-as, from-import, from-import-as, attribute, getattr, back-references through every baseline path that reaches the module) evaluated with risor.Eval; independence: sequences (R, default) and (default, R, default) for every single denial / override / no-defaults R, built sequentially, plus Eval(R) then Eval(default); one host map handed with WithGlobals to every ordered pair of five configuration shapes (default, no defaults, a denied global, a denied module member, an override), as the first and as the last option: the host map stays as it was and every configuration equals the one built on a map of its own. distinct = (configuration kind, attempt form, outcome class) tuples"
 	rule += "; deny lists of several names: (a) WithoutGlobals(u, n) and (n, u) for every n in U and 3 unresolvable spellings u (no such module / nested path below a missing member / missing member of an existing module), (b) every insertion order of (m, m.x, other) for every module m and member x"
 	if u.thoroughRepeated {
 		rule += " and 3 names outside m"
